@@ -53,22 +53,109 @@ theorem extractLoop_spec (t : Trace) (s : Span) (fs : List String) (cor : Bool) 
       | none => simpa [lookupField] using ih false
       | some v => simp
 
-/-- **fields_first_present** — for every condition on ordinary fields, the value a span is tested
-with is that of the first name in `Fields` (or the single `Field`) that is present, each name being
-looked up in the root span if it carries the `root.` prefix and in the span itself otherwise; if none
-is present the field does not exist for that span. -/
-theorem fields_first_present (t : Trace) (s : Span) (c : Cond) (h : isNumDescendants c = false) :
-    ((extract t s c).val, (extract t s c).ex) =
+theorem nestedResult_cor (E : Ext) (t : Trace) (sp : Span) (fs : List String) :
+    (nestedResult E t sp fs).cor = false := by
+  unfold nestedResult; cases nestedLoop E t sp fs <;> rfl
+
+theorem nestedResult_absent_nil (E : Ext) (t : Trace) (sp : Span) (fs : List String)
+    (h : (nestedResult E t sp fs).ex = false) : (nestedResult E t sp fs).val = .nil := by
+  unfold nestedResult at h ⊢
+  cases hn : nestedLoop E t sp fs with
+  | none => rfl
+  | some str => rw [hn] at h; cases h
+
+/-- **nested_lookup_spec** — the value a span is tested with: *first* the flat lookup of every
+field name in order (`root.` names in the root span, skipped when the trace has no root span; other
+names in the span itself); *only if none of them is present* and `CheckNestedFields` is on, the
+first field name, taken as a dotted path, that leads to a value nested in map-valued fields (of the
+span the flat loop looked at last), as JSON text; otherwise the field does not exist. -/
+theorem nested_lookup_spec (E : Ext) (t : Trace) (s : Span) (c : Cond) (h : isNumDescendants c = false) :
+    ((extract E t s c).val, (extract E t s c).ex) =
+      match (effFields c).findSome? (lookupField t s) with
+      | some v => (v, true)
+      | none =>
+        if t.nested then
+          match nestedLoop E t (lastSpan t s (effFields c)) (effFields c) with
+          | some str => (.str str, true)
+          | none => (.nil, false)
+        else (.nil, false) := by
+  have hl := extractLoop_spec t s (effFields c) true
+  simp only [extract, h, Bool.false_eq_true, if_false]
+  cases hf : (effFields c).findSome? (lookupField t s) with
+  | some v =>
+    simp only [hf] at hl
+    have hex : (extractLoop t s (effFields c) true).ex = true := (Prod.mk.inj hl).2
+    rw [if_pos hex]; exact hl
+  | none =>
+    simp only [hf] at hl
+    have hex : (extractLoop t s (effFields c) true).ex = false := (Prod.mk.inj hl).2
+    simp only [hex, Bool.false_eq_true, if_false]
+    cases t.nested
+    · simp
+    · simp only [if_true, nestedResult]
+      cases nestedLoop E t (lastSpan t s (effFields c)) (effFields c) <;> rfl
+
+/-- **fields_first_present** — without `CheckNestedFields`, for every condition on ordinary fields,
+the value a span is tested with is that of the first name in `Fields` (or the single `Field`) that is
+present, each name being looked up in the root span if it carries the `root.` prefix and in the span
+itself otherwise; if none is present the field does not exist for that span. -/
+theorem fields_first_present (E : Ext) (t : Trace) (s : Span) (c : Cond) (h : isNumDescendants c = false)
+    (hnest : t.nested = false) :
+    ((extract E t s c).val, (extract E t s c).ex) =
       match (effFields c).findSome? (lookupField t s) with
       | some v => (v, true)
       | none => (.nil, false) := by
-  simp only [extract, h, Bool.false_eq_true, if_false]
-  exact extractLoop_spec t s (effFields c) true
+  rw [nested_lookup_spec E t s c h]
+  cases (effFields c).findSome? (lookupField t s) <;> simp [hnest]
+
+/-- With or without `CheckNestedFields`, a field that is present flat is never looked up nested. -/
+theorem flat_lookup_first (E : Ext) (t : Trace) (s : Span) (c : Cond) (v : Val)
+    (h : isNumDescendants c = false) (hf : (effFields c).findSome? (lookupField t s) = some v) :
+    ((extract E t s c).val, (extract E t s c).ex) = (v, true) := by
+  rw [nested_lookup_spec E t s c h, hf]
+
+theorem foldl_last {α β : Type} (g : α → β) (l : List α) (a : β) :
+    l.foldl (fun _ x => g x) a = match l.getLast? with
+      | some x => g x
+      | none => a := by
+  induction l generalizing a with
+  | nil => rfl
+  | cons x xs ih =>
+    rw [List.foldl_cons, ih, List.getLast?_cons]
+    cases xs.getLast? <;> rfl
+
+theorem spanAfterLoop_eq (t : Trace) (s : Span) (fs : List String) :
+    spanAfterLoop t s fs = some (lastSpan t s fs) := by
+  unfold spanAfterLoop lastSpan
+  rw [foldl_last]
+  cases fs.getLast? with
+  | none => rfl
+  | some f =>
+    by_cases hp : hasPrefix f rootPrefix = true
+    · cases hr : t.root <;> simp [hp]
+    · simp [hp]
+
+/-- **rules_never_panic** — on every path of `extractValueFromSpan` that the model covers (virtual
+field, flat loop with `root.` names with or without a root span, nested fallback) the one pointer
+the code dereferences without a check of its own, `span` after the field loop, is never nil: the
+partial function `extractP` (nil dereference = `none`) always returns, and returns `extract`.  In
+particular a `root.` field on a trace that reaches sampling without root span is simply absent. -/
+theorem rules_never_panic (E : Ext) (t : Trace) (s : Span) (c : Cond) :
+    extractP E t s c = some (extract E t s c) := by
+  unfold extractP extract
+  by_cases hn : isNumDescendants c = true
+  · simp [hn]
+  · simp only [hn, Bool.false_eq_true, if_false]
+    cases (extractLoop t s (effFields c) true).ex
+    · cases t.nested
+      · simp
+      · simp [spanAfterLoop_eq]
+    · simp
 
 /-- **num_descendants_trace_level** — `?.NUM_DESCENDANTS` is the number of spans of the trace,
 whichever span is being looked at. -/
-theorem num_descendants_trace_level (t : Trace) (s : Span) (c : Cond) (h : isNumDescendants c = true) :
-    extract t s c = ⟨.int t.spans.length, true, true⟩ := by
+theorem num_descendants_trace_level (E : Ext) (t : Trace) (s : Span) (c : Cond) (h : isNumDescendants c = true) :
+    extract E t s c = ⟨.int t.spans.length, true, true⟩ := by
   simp [extract, h]
 
 theorem rootPrefix_toList : rootPrefix.toList = ['r', 'o', 'o', 't', '.'] := by decide
@@ -78,6 +165,11 @@ theorem hasPrefix_root (g : String) : hasPrefix (rootPrefix ++ g) rootPrefix = t
 
 theorem dropPrefix_root (g : String) : dropPrefix (rootPrefix ++ g) rootPrefix = g := by
   simp [dropPrefix, String.toList_append, String.ofList_toList]
+
+/-- A `root.` field of a trace without root span is skipped by the flat lookup. -/
+theorem root_field_skipped_without_root (t : Trace) (s : Span) (g : String) (h : t.root = none) :
+    lookupField t s (rootPrefix ++ g) = none := by
+  simp [lookupField, hasPrefix_root, h]
 
 theorem root_not_computed (g : String) : hasPrefix (rootPrefix ++ g) computedPrefix = false := by
   have : computedPrefix.toList = ['?', '.'] := by decide
@@ -93,9 +185,9 @@ theorem root_ne_empty (g : String) : ((rootPrefix ++ g) != "") = true := by
 /-- **root_prefix_reads_root** — a condition on `root.<g>` is tested, for *every* span, against the
 root span's field `<g>`; the span being looked at plays no role; without a root span (or without the
 field on it) the field does not exist. -/
-theorem root_prefix_reads_root (t : Trace) (s : Span) (c : Cond) (g : String)
-    (hf : c.field = rootPrefix ++ g) (hfs : c.fields = []) :
-    extract t s c =
+theorem root_prefix_reads_root (E : Ext) (t : Trace) (s : Span) (c : Cond) (g : String)
+    (hf : c.field = rootPrefix ++ g) (hfs : c.fields = []) (hnest : t.nested = false) :
+    extract E t s c =
       match t.root.bind (fun r => r.data.lookup g) with
       | some v => ⟨v, true, true⟩
       | none => ⟨.nil, false, false⟩ := by
@@ -103,10 +195,10 @@ theorem root_prefix_reads_root (t : Trace) (s : Span) (c : Cond) (g : String)
   have he : effFields c = [rootPrefix ++ g] := by
     simp [effFields, hf, hfs, root_ne_empty]
   simp only [extract, hn, Bool.false_eq_true, if_false, he, extractLoop, hasPrefix_root, if_true,
-    dropPrefix_root]
+    dropPrefix_root, hnest]
   cases t.root with
   | none => simp
-  | some r => simp only [Option.bind_some]; cases r.data.lookup g <;> rfl
+  | some r => simp only [Option.bind_some]; cases r.data.lookup g <;> simp
 
 /-- If the extraction reports `checkedOnlyRoot`, it found the value on the root span through
 `root.` names only, so every span of the trace gives the same extraction. -/
@@ -133,19 +225,26 @@ theorem extractLoop_cor (t : Trace) (s : Span) (fs : List String) (c0 : Bool)
         exact absurd (ih false h).1 (by simp)
       | some v => simp [hl] at h
 
-theorem extract_cor (t : Trace) (s : Span) (c : Cond) (h : (extract t s c).cor = true) :
-    ∀ s', extract t s' c = extract t s c := by
+theorem extract_cor (E : Ext) (t : Trace) (s : Span) (c : Cond) (h : (extract E t s c).cor = true) :
+    ∀ s', extract E t s' c = extract E t s c := by
   intro s'
   unfold extract at h ⊢
   by_cases hn : isNumDescendants c = true
   · simp [hn]
   · simp only [hn, Bool.false_eq_true, if_false] at h ⊢
-    exact (extractLoop_cor t s _ true h).2 s'
+    cases hx : (extractLoop t s (effFields c) true).ex with
+    | true =>
+      simp only [hx, if_true] at h ⊢
+      have := (extractLoop_cor t s _ true h).2 s'
+      rw [this, hx]; simp
+    | false =>
+      simp only [hx, Bool.false_eq_true, if_false] at h
+      cases hnest : t.nested <;> simp [hnest, nestedResult_cor] at h
 
-theorem condOnSpan_cor (E : Ext) (t : Trace) (c : Cond) (s : Span) (h : (extract t s c).cor = true) :
+theorem condOnSpan_cor (E : Ext) (t : Trace) (c : Cond) (s : Span) (h : (extract E t s c).cor = true) :
     ∀ s', condOnSpan E t c s' = condOnSpan E t c s := by
   intro s'
-  simp [condOnSpan, extract_cor t s c h s']
+  simp [condOnSpan, extract_cor E t s c h s']
 
 /-! ## trace scope -/
 
@@ -158,7 +257,7 @@ theorem traceCond_eq_any (E : Ext) (t : Trace) (c : Cond) (spans : List Span) :
     by_cases hm : condOnSpan E t c s = true
     · simp [hm]
     · simp only [hm, Bool.false_eq_true, if_false, Bool.false_or]
-      by_cases hc : (extract t s c).cor = true
+      by_cases hc : (extract E t s c).cor = true
       · simp only [hc, if_true]
         symm
         rw [List.any_eq_false]
@@ -238,7 +337,7 @@ theorem spanConds_all (E : Ext) (t : Trace) (s : Span) (cs : List Cond) :
     by_cases hm : condOnSpan E t c s = true
     · simp [hm, ih]
     · simp only [hm, Bool.false_eq_true, if_false, Bool.false_and, iff_false]
-      by_cases hc : (extract t s c).cor = true <;> simp [hc]
+      by_cases hc : (extract E t s c).cor = true <;> simp [hc]
 
 theorem spanConds_failedRoot (E : Ext) (t : Trace) (s : Span) (cs : List Cond)
     (h : spanConds E t s cs = .failedRoot) :
@@ -252,7 +351,7 @@ theorem spanConds_failedRoot (E : Ext) (t : Trace) (s : Span) (cs : List Cond)
       obtain ⟨c', hc', hall⟩ := ih h
       exact ⟨c', List.mem_cons_of_mem _ hc', hall⟩
     · simp only [hm, Bool.false_eq_true, if_false] at h
-      by_cases hc : (extract t s c).cor = true
+      by_cases hc : (extract E t s c).cor = true
       · refine ⟨c, List.mem_cons_self, fun s' => ?_⟩
         rw [condOnSpan_cor E t c s hc s']
         simpa using hm
@@ -302,7 +401,7 @@ theorem has_root_span_not_in_span_scope (E : Ext) (t : Trace) (conds : List Cond
     intro s
     unfold condOnSpan condValue matcherOf
     have hm : matcher E c = none := by simp [matcher, hop]
-    cases initErr c <;> cases (extract t s c).ex <;> simp [hm, untyped, hop]
+    cases initErr c <;> cases (extract E t s c).ex <;> simp [hm, untyped, hop]
   have hne : conds.isEmpty = false := by cases conds <;> simp at hc ⊢
   rw [span_scope_spec, hne, Bool.false_or, List.any_eq_false]
   intro s _
@@ -458,7 +557,13 @@ theorem untyped_compare (E : Ext) (c : Cond) (v : Val) (ex : Bool)
     cases compareVals v c.val <;> rfl
 
 /-- external functions that are never consulted by untyped numeric comparisons -/
-def goExt0 : Ext := ⟨fun _ => "", fun _ => none, fun _ => none, fun _ => none, fun _ => false, fun _ _ => false⟩
+def goExt0 : Ext where
+  fmt _ := ""
+  atoi _ := none
+  pfloat _ := none
+  pbool _ := none
+  rxCompiles _ := false
+  rxMatch _ _ := false
 
 /-- numeric reading of a value: an integer, or a float as the exact fraction it denotes -/
 def toQ : Val → Option (Int × Nat)
@@ -503,13 +608,13 @@ example : condValue goExt0 { field := "a", op := .gte, val := .int 2 } (.flt 15 
 /-! ## absent fields -/
 
 /-- no span of the trace has (any of) the condition's field(s) -/
-def AbsentEverywhere (t : Trace) (c : Cond) : Prop := ∀ s ∈ t.spans, (extract t s c).ex = false
+def AbsentEverywhere (E : Ext) (t : Trace) (c : Cond) : Prop := ∀ s ∈ t.spans, (extract E t s c).ex = false
 
 /-- **absent_never_matches, full statement** (rules_conditions.md: "When a Field is absent in all
 spans within a trace, the associated rule does not apply to that trace"): a condition whose field
 is absent from every span is matched by no span, unless its operator is `not-exists`. -/
 def AbsentNeverMatches : Prop :=
-  ∀ (E : Ext) (t : Trace) (c : Cond), c.op ≠ .notEx → AbsentEverywhere t c →
+  ∀ (E : Ext) (t : Trace) (c : Cond), c.op ≠ .notEx → AbsentEverywhere E t c →
     ∀ s ∈ t.spans, condOnSpan E t c s = false
 
 /-- `%v`, strconv and regexp on the handful of arguments the witnesses use -/
@@ -597,13 +702,21 @@ theorem extractLoop_absent_nil (t : Trace) (s : Span) (fs : List String) (c0 : B
 is evaluated on the value `nil` with `exists = false`; operators that ignore `exists` then see
 whatever `%v` makes of `nil`. -/
 theorem absent_is_nil_coercion (E : Ext) (t : Trace) (c : Cond) (s : Span)
-    (h : (extract t s c).ex = false) : condOnSpan E t c s = condValue E c .nil false := by
-  have hv : (extract t s c).val = .nil := by
+    (h : (extract E t s c).ex = false) : condOnSpan E t c s = condValue E c .nil false := by
+  have hv : (extract E t s c).val = .nil := by
     unfold extract at h ⊢
     by_cases hn : isNumDescendants c = true
     · simp [hn] at h
     · simp only [hn, Bool.false_eq_true, if_false] at h ⊢
-      exact extractLoop_absent_nil t s _ true h
+      cases hx : (extractLoop t s (effFields c) true).ex with
+      | true => simp [hx] at h
+      | false =>
+        simp only [hx, Bool.false_eq_true, if_false] at h ⊢
+        cases hnest : t.nested with
+        | false => simp
+        | true =>
+          simp only [hnest, if_true] at h ⊢
+          exact nestedResult_absent_nil E t _ _ h
   simp [condOnSpan, h, hv]
 
 /-- The operator classes whose matcher honours absence: `exists`, `has-root-span` (never matches a
@@ -686,7 +799,7 @@ theorem condValue_absent_safe (E : Ext) (c : Cond) (hop : c.op ≠ .notEx) (hs :
 /-- **absent_never_matches_partial** — for the operator classes of `absentSafe` (and any operator but
 `not-exists`), a span that lacks the condition's field(s) is not matched by the condition. -/
 theorem absent_never_matches_partial (E : Ext) (t : Trace) (c : Cond) (s : Span)
-    (hop : c.op ≠ .notEx) (hs : absentSafe c = true) (h : (extract t s c).ex = false) :
+    (hop : c.op ≠ .notEx) (hs : absentSafe c = true) (h : (extract E t s c).ex = false) :
     condOnSpan E t c s = false := by
   rw [absent_is_nil_coercion E t c s h]
   exact condValue_absent_safe E c hop hs
@@ -695,7 +808,7 @@ theorem absent_never_matches_partial (E : Ext) (t : Trace) (c : Cond) (s : Span)
 the trace, in either scope. -/
 theorem absent_rule_does_not_apply_partial (E : Ext) (t : Trace) (conds : List Cond) (c : Cond)
     (hc : c ∈ conds) (hop : c.op ≠ .notEx) (hr : c.op ≠ .hasRootSpan) (hs : absentSafe c = true)
-    (h : AbsentEverywhere t c) :
+    (h : AbsentEverywhere E t c) :
     matchTrace E t conds = false ∧ matchSpan E t conds = false := by
   have hcell : ∀ s ∈ t.spans, condOnSpan E t c s = false :=
     fun s hmem => absent_never_matches_partial E t c s hop hs (h s hmem)
@@ -724,8 +837,8 @@ example : matchSpan goExt tr2 [{ field := "a", op := .eq, val := .int 5 }, { fie
 -- root. prefix: every span sees the root's `a`
 example : matchSpan goExt tr2 [{ field := "root.a", op := .eq, val := .int 5 }, { field := "b", op := .ex }] = true := by decide
 -- Fields: first present wins (`b` on the second span, `a` on the first)
-example : (extract tr2 ⟨[("b", .str "x")]⟩ { fields := ["zz", "b", "root.a"], op := .ex }).val = .str "x" := by decide
-example : (extract tr2 ⟨[("a", .int 5)]⟩ { fields := ["zz", "b", "root.a"], op := .ex }) = ⟨.int 5, true, false⟩ := by decide
+example : (extract goExt tr2 ⟨[("b", .str "x")]⟩ { fields := ["zz", "b", "root.a"], op := .ex }).val = .str "x" := by decide
+example : (extract goExt tr2 ⟨[("a", .int 5)]⟩ { fields := ["zz", "b", "root.a"], op := .ex }) = ⟨.int 5, true, false⟩ := by decide
 -- ?.NUM_DESCENDANTS
 example : matchTrace goExt tr2 [{ field := "?.NUM_DESCENDANTS", op := .eq, val := .int 2 }] = true := by decide
 -- first match wins; drop; rate
@@ -739,5 +852,26 @@ example : getSampleRate goExt tr2 (fun _ => none) (fun _ => 3)
 example : getSampleRate goExt tr2 (fun _ => none) (fun _ => 0)
     [{ name := "r", rate := 10, drop := false, scope := .trace, conds := [] }] = ⟨10, true, .rule .trace "r", ""⟩ := by decide
 example : absentSafe (onZZ .eq .int (.int 5)) = true ∧ absentSafe (onZZ .notIn .int (.int 5)) = false := by decide
+
+/-! ### CheckNestedFields -/
+
+def trN : Trace :=
+  { spans := [⟨[("a", .int 1)]⟩, ⟨[("c", .other "M")]⟩], root := none, nested := true,
+    maps := [("M", [("status", .int 200), ("x", .other "Mx")]), ("Mx", [("y", .str "deep")])] }
+
+def jsExt : Ext := { goExt with jsonStr := fun v => match v with | .int 200 => "200" | .str s => s | _ => "?" }
+
+-- a dotted path into a nested map (depth 1 and depth 2), only on the span that has it
+example : extract jsExt trN ⟨[("c", .other "M")]⟩ { field := "c.status", op := .ex } = ⟨.str "200", true, false⟩ := by decide
+example : extract jsExt trN ⟨[("c", .other "M")]⟩ { field := "c.x.y", op := .ex } = ⟨.str "deep", true, false⟩ := by decide
+example : extract jsExt trN ⟨[("a", .int 1)]⟩ { field := "c.x.y", op := .ex } = ⟨.nil, false, false⟩ := by decide
+-- flat first: a flat field wins over a nested one that comes earlier in Fields
+example : extract jsExt trN ⟨[("c", .other "M"), ("a", .int 1)]⟩ { fields := ["c.status", "a"], op := .ex } = ⟨.int 1, true, false⟩ := by decide
+-- no root span: a `root.` field is absent (and nothing panics)
+example : extractP jsExt trN ⟨[("c", .other "M")]⟩ { field := "root.c.status", op := .ex } = some ⟨.nil, false, false⟩ := by decide
+-- with the option off the nested value is not looked for
+example : extract jsExt { trN with nested := false } ⟨[("c", .other "M")]⟩ { field := "c.status", op := .ex } = ⟨.nil, false, false⟩ := by decide
+-- the typed matcher then sees the JSON text "200"
+example : matchTrace jsExt trN [{ field := "c.status", op := .eq, val := .str "200", dt := .str }] = true := by decide
 
 end Refinery.Props.C08
